@@ -130,17 +130,22 @@ func (m *expirationMap[V]) cleanup(store store[V], policy *defaultPolicy[V], onE
 	}
 	m.lastCleanedBucketNum = currentBucketNum
 	m.Unlock()
+	verifPoint(vpSweepGrabbed, uint64(len(buckets)), 0)
 
 	for _, keys := range buckets {
 		for key, conflict := range keys {
+			verifPoint(vpSweepKey, key, conflict)
 			expr := store.Expiration(key)
 			// Sanity check. Verify that the store agrees that this key is expired.
 			if expr.After(now) {
+				verifPoint(vpSweepSkip, key, conflict)
 				continue
 			}
+			verifPoint(vpSweepChecked, key, conflict)
 
 			cost := policy.Cost(key)
 			policy.Del(key)
+			verifPoint(vpSweepPolDel, key, conflict)
 			_, value := store.Del(key, conflict)
 
 			if onEvict != nil {
@@ -154,6 +159,7 @@ func (m *expirationMap[V]) cleanup(store store[V], policy *defaultPolicy[V], onE
 		}
 	}
 
+	verifPoint(vpSweepDone, 0, 0)
 	cleanedBucketsCount := len(buckets)
 
 	return cleanedBucketsCount
